@@ -270,6 +270,32 @@ pub fn xref_fields(stream_first: bool) -> DocSpec {
     }
 }
 
+/// four revisions (classic, classic, stream, stream), each rewriting the page: a /Prev chain long
+/// enough for a loop that closes in its middle
+pub fn xref_chain() -> DocSpec {
+    let d = |v: Val| Slot::Direct { gen: 0, body: Body::Plain(v) };
+    let page = |side: i64| d(Val::dict(vec![("Type", Val::name("Page")), ("Parent", Val::r(2)), ("MediaBox", rect(0, 0, side, side)), ("Resources", Val::dict(vec![]))]));
+    let mut s0: BTreeMap<u32, Slot> = BTreeMap::new();
+    s0.insert(1, d(Val::dict(vec![("Type", Val::name("Catalog")), ("Pages", Val::r(2))])));
+    s0.insert(2, d(Val::dict(vec![("Type", Val::name("Pages")), ("Kids", Val::Arr(vec![Val::r(3)])), ("Count", Val::Int(1))])));
+    s0.insert(3, page(10));
+    let rev = |side: i64, style: XrefStyle, size: u32| {
+        let mut s: BTreeMap<u32, Slot> = BTreeMap::new();
+        s.insert(3, page(side));
+        Revision { slots: s, objstms: vec![], style, size, root: Val::r(1), trailer: vec![], overrides: vec![] }
+    };
+    DocSpec {
+        junk: vec![],
+        revisions: vec![
+            Revision { slots: s0, objstms: vec![], style: XrefStyle::Classic { cuts: vec![] }, size: 4, root: Val::r(1), trailer: vec![("ID".into(), Val::Arr(vec![Val::Str(b"a".to_vec()), Val::Str(b"a".to_vec())]))], overrides: vec![] },
+            rev(20, XrefStyle::Classic { cuts: vec![] }, 4),
+            rev(30, XrefStyle::Stream { num: 4, w: [1, 3, 2], cuts: vec![], filter: StmFilter::None, predictor: 0 }, 5),
+            rev(40, XrefStyle::Stream { num: 5, w: [1, 3, 2], cuts: vec![], filter: StmFilter::AsciiHex, predictor: 0 }, 6),
+        ],
+        encrypt: None,
+    }
+}
+
 /// an /Encrypt dictionary of the standard security handler (the password check fails, but the
 /// key-length arithmetic in front of it is attack surface)
 pub fn encrypt() -> DocSpec {
@@ -649,6 +675,7 @@ pub fn all() -> Vec<(&'static str, DocSpec)> {
         ("objstm", objstm()),
         ("xref_fields_classic_first", xref_fields(false)),
         ("xref_fields_stream_first", xref_fields(true)),
+        ("xref_chain", xref_chain()),
         ("encrypt", encrypt()),
         ("encrypt_v4", encrypt_v4()),
         ("encrypt_open_rc4_128", encrypt_open(3, 16, false)),
